@@ -507,7 +507,11 @@ class CMakeTraceParser:
             return self._gen_exception('set_property', 'failed to parse argument list', tline)
 
         if len(args) == 1:
-            # Tries to set property to nothing so nothing has to be done
+            # Without a value the property is unset (and nothing is appended)
+            if scope == 'TARGET' and not append:
+                for i in targets:
+                    if i in self.targets:
+                        self.targets[i].properties.pop(args[0], None)
             return
 
         identifier = args.pop(0)
